@@ -127,6 +127,8 @@ unber_stream(const char *fname, input_stream_t *ibs, output_stream_t *os) {
     return 0;
 }
 
+#define UNBER_MAX_NESTING   10000   /* Levels of constructed TLVs */
+
 /*
  * Process the TLV recursively.
  */
@@ -141,6 +143,19 @@ process_deeper(const char *fname, input_stream_t *ibs, output_stream_t *os,
     ber_tlv_len_t tlv_len;
     ssize_t t_len;
     ssize_t l_len;
+
+    /*
+     * The decoder recurses once per level of nesting: refuse input nested
+     * deeper than any sensible encoding instead of exhausting the stack.
+     */
+    if(level > UNBER_MAX_NESTING) {
+        osprintfError(os,
+                      "%s: TLVs nested more than %d deep at %lld. "
+                      "Broken or maliciously constructed file\n",
+                      fname, UNBER_MAX_NESTING,
+                      (long long)ibs->bytesRead(ibs));
+        return PD_FAILED;
+    }
 
     for(;;) {
         ber_tlv_len_t local_esize = 0;
